@@ -107,6 +107,13 @@ def signature(d, taken):
         return "%s%s" % ("" if tr else "!", role(e))
     if e[0] == "discr":
         v = taken[1] if taken[0] == "eq" else "!" + ",".join(taken[1])
+        inner = e[1]
+        while inner[0] == "call" and inner[1].split("::")[-1] in ("as_ref", "as_mut", "as_deref") and "Option" in inner[1] and inner[2]:
+            inner = inner[2][0]
+            while inner[0] == "ref":
+                inner = inner[1]
+        if inner is not e[1]:
+            e = ("discr", inner)
         ty = e[1][2] if (e[1][0] in ("load", "refplace") and len(e[1]) > 2) else ""
         if str(ty).startswith("std::option::Option<") and v in ("0", "!1", "1", "!0"):
             return "%sis_none(%s)" % ("" if v in ("0", "!1") else "!", role(e[1]))
@@ -341,10 +348,12 @@ def _match(row, sigs):
 
 def r3(cx, run):
     u = cx.u
-    f = M + "convert_mp4_error"
-    if f not in u.hir:
-        run.bad("R3", "anchor", "internal->public error conversion not found")
+    # the conversion is found by its signature (internal error in, public error out), not by its name
+    cands = [p_ for p_, h in u.hir.items() if h.get("ret", "").endswith("MuxerError") and any(pp.get("ty", "").endswith("Mp4WriterError") for pp in h.get("params", []))]
+    if len(cands) != 1:
+        run.bad("R3", "anchor", "internal->public error conversion not found (functions taking Mp4WriterError and returning MuxerError: %d)" % len(cands))
         return
+    f = cands[0]
     it = L.Interp(u)
     try:
         v = it.call_value(f, [("param", p["pat"].get("name", "_")) for p in u.hir[f]["params"]])
